@@ -23,6 +23,7 @@ import (
 func c14Gen(rt *rapid.T) wProg {
 	p := wProg{}
 	p.Cfg = wConfig{Users: 3, NoPush: gPct(rt, 50), Root: gPct(rt, 35)}
+	gLat(rt, &p, 40)
 	p.Sess = append([]int(nil), gPick(rt, [][]int{{0, 0, 1, 1, 2}, {0, 1, 1, 2, 2}, {0, 0, 1, 2}, {0, 1, 2, 0, 1, 2}}, "layout")...)
 	kind := "new"
 	if gPct(rt, 25) {
